@@ -19,7 +19,7 @@ import struct
 import pytree
 from checks import pygen, syntaxrun as sr, lexcommon as lx
 
-CONFIGS = ["all", "exprcore", "atoms", "atoms2", "prec", "calls"]
+CONFIGS = ["all", "exprcore", "atoms", "atoms2", "prec", "calls", "callkw"]
 
 
 def strip(t):
